@@ -24,12 +24,16 @@ ABBREV_Q = ("abbrev [offset value, [entry [code value, label value, [?haschildre
 UNIT_Q = "raw unit [offset value, abbrev offset value]"
 DIE_Q = "raw entry [offset value, abbrev [code value, offset value]]"
 # per location attribute: DIE offset, attribute position, then per element [address ranges, length, elem (offset,label,value*), relem offsets, pos]
-LOC_Q = ("raw entry (|D| D attribute ?(label == (DW_AT_location, DW_AT_frame_base, DW_AT_data_member_location)) (|A| A value ?(type == T_LOCLIST_ELEM) (|E| [D offset value, A pos, "
+LOC_Q = ("raw entry (|D| D attribute ?(label == (DW_AT_location, DW_AT_frame_base, DW_AT_data_member_location, DW_AT_data_location, DW_AT_return_addr, DW_AT_static_link, DW_AT_use_location, DW_AT_vtable_elem_location, DW_AT_segment)) (|A| A value ?(type == T_LOCLIST_ELEM) (|E| [D offset value, A pos, "
          "[E address (|S| [S low value, S high value] || [])], E length, "
          "[E elem [offset value, label value, [value (|V| (V ?(type == T_CONST) [1, V value, V] || "
          "V ?(type == T_DIE) [2, V offset value] || V ?(type == T_SEQ) [3, V] || V ?(type == T_LOCLIST_ELEM) [4, [V elem label value]]))], pos]], "
          "[E relem [offset value, pos]], E pos])))")
-LOCV = "entry attribute ?(label == (DW_AT_location, DW_AT_frame_base, DW_AT_data_member_location)) value"
+LOCV = "entry attribute ?(label == (DW_AT_location, DW_AT_frame_base, DW_AT_data_member_location, DW_AT_data_location, DW_AT_return_addr, DW_AT_static_link, DW_AT_use_location, DW_AT_vtable_elem_location, DW_AT_segment)) value"
+# the attributes whose value is a location description (DWARF 5, 7.5.4: classes exprloc / loclist) and that dwgrep decodes as one
+LOCATION_CLASS = ("location", "frame_base", "data_member_location", "data_location", "return_addr", "static_link", "use_location",
+                  "vtable_elem_location", "segment")
+
 LAWS = [
     ("length = number of elem", LOCV + " ?(type == T_LOCLIST_ELEM) ?(length != [elem] length)"),
     ("relem = elem reversed", LOCV + " ?(type == T_LOCLIST_ELEM) (|E| ?([E relem [offset, label]] != [[E elem [offset, label]] relem]))"),
@@ -195,7 +199,7 @@ def check_locations(ctx, fs, desc, path, res_lines, stats, stream="C17-loc"):
             for i, a in enumerate(x["attrs"]):
                 v = a["value"]
                 if isinstance(v, dict) and "ops" in v and a["form"] in (forest.DW_FORM["exprloc"], forest.DW_FORM["block1"]) \
-                        and (forest.DW_AT.name(a["name"]) in ("location", "frame_base", "data_member_location")):
+                        and (forest.DW_AT.name(a["name"]) in LOCATION_CLASS):
                     want_loc.append((x["offset"], i, [(0, M64 - 1, ops2_of(v))], u["offset"]))
                 elif isinstance(v, dict) and "loclist" in v:
                     stats["lists"] = stats.get("lists", 0) + 1
@@ -253,7 +257,8 @@ def run(ctx):
         for k in range(n):
             opts = {"max_units": 4}
             if "rich_ops" in forest._DEFAULTS:
-                opts.update({"rich_ops": 0.7, "loclists": 0.5 if k % 2 else 0.0, "empty_ranges": 0.3, "implicit_consts": 0.6, "dup_attrs": 0.1 if k % 4 == 1 else 0.0})
+                opts.update({"rich_ops": 0.7, "loclists": 0.5 if k % 2 else 0.0, "empty_ranges": 0.3, "implicit_consts": 0.6, "dup_attrs": 0.1 if k % 4 == 1 else 0.0,
+                             "more_locations": 0.4 if k % 2 == 0 else 0.0})
             desc, path = fs.make(rng, **opts)
             qs = [ABBREV_Q, UNIT_Q, DIE_Q, LOC_Q] + [q for _, q in LAWS]
             recs, crashes = fs.query(path, qs)
